@@ -284,7 +284,21 @@ class C18(Prop):
         try:
             got = prog(**kw)
         except Exception as ex:
-            raise Decline("program-raised:" + type(ex).__name__)
+            # the compiler accepted the expression: a program that cannot run does not "return the same value as
+            # substituting those arrays into the expression" - unless that substitution cannot be evaluated either
+            # (e.g. normalize turned x / n into x * reciprocal(n) and reciprocal of an integer array raises)
+            from funsor.tensor import Tensor
+            from funsor.terms import Number
+
+            try:
+                subs = {n: Tensor(np.asarray(v), dtype=(inputs[n][0] if inputs[n][0] != "real" else "real")) for n, v in kw.items()}
+                direct = [f(**{n: v for n, v in subs.items() if n in f.inputs}) for f in fs]
+                evaluated = all(isinstance(d, (Tensor, Number)) for d in direct)
+            except Exception:
+                raise Decline("expression-itself-raises-at-the-binding")
+            if not evaluated:
+                raise Decline("expression-stays-lazy-at-the-binding")
+            raise Violation("compiled-program-raised", f"{type(ex).__name__}: {ex}: {self.describe(case)}")
         compare(got, "compiled")
         # pickle round trip
         try:
